@@ -9,4 +9,4 @@ ASSUMPTIONS = ["reference/serde_classes.json and the enum representation matrix 
 def run(ctx):
     c = ctx.mir("default")["ts_rs"]
     return [L.class_table_rule(ctx.syn, c, "C01", rule="C01.R1"), T.naming_precedence_rule(ctx.syn, "C01", rule="C01.R2"),
-            T.rename_all_fields_rule(ctx.syn, "C01", rule="C01.R2b"), T.variant_matrix_rule(ctx.syn, "C01"), T.struct_tag_first_rule(ctx.syn, "C01"), T.variant_tag_rule(ctx.syn, "C01"), T.struct_dispatch_rule(ctx.syn, "C01")]
+            T.rename_all_fields_rule(ctx.syn, "C01", rule="C01.R2b"), T.variant_matrix_rule(ctx.syn, "C01"), T.struct_tag_first_rule(ctx.syn, "C01"), T.variant_tag_rule(ctx.syn, "C01"), T.struct_dispatch_rule(ctx.syn, "C01"), T.variant_name_flow_rule(ctx.syn, "C01", rule="C01.R7")]
